@@ -168,7 +168,12 @@ func main() {
 	flag.StringVar(&driverPath, "driver", "", "path of the compiled Lean driver")
 	outp := flag.String("out", "", "result file")
 	replay := flag.String("replay", "", "replay file")
+	execMode := flag.Bool("exec", false, "child mode: execute the calls given on stdin and print their results")
 	flag.Parse()
+	if *execMode {
+		execChild()
+		return
+	}
 	rng = rand.New(rand.NewSource(seed*7919 + int64(len(*prop))))
 	loadTables()
 	res = result{Property: *prop, Tier: tier, Seed: seed, Distribution: map[string]int{}, Samples: []interface{}{}, Failures: []failure{}}
